@@ -44,7 +44,7 @@ theorem get_touch (fs : FS) (p q : RPath) :
         | dir a m => exact absurd hg (hn a m)
         | file d a m => rfl
         | symlink t a lm => rfl
-        | dev ma mi a m => rfl
+        | dev ty ma mi a m => rfl
   · rw [if_neg h]; exact get_touch_ne _ h
 
 /-! ### resolution succeeds along real directories -/
@@ -206,8 +206,8 @@ theorem symlinkAt_fresh (target : Bytes) (h : Good fs dst) (hn : fs.get dst = no
   unfold symlinkAt
   simp [resolve_nofollow h, bind, Except.bind, h.ne, hn, h.parent, pure, Except.pure]
 
-theorem mknod_fresh (ma mi : Nat) (h : Good fs dst) (hn : fs.get dst = none) :
-    mknod fs dst ma mi = .ok ((fs.set dst (.dev ma mi {} none)).touch dst.dropLast) := by
+theorem mknod_fresh (ty ma mi : Nat) (h : Good fs dst) (hn : fs.get dst = none) :
+    mknod fs dst ty ma mi = .ok ((fs.set dst (.dev ty ma mi {} none)).touch dst.dropLast) := by
   unfold mknod
   simp [resolve_nofollow h, bind, Except.bind, h.ne, hn, h.parent, pure, Except.pure]
 
@@ -464,7 +464,7 @@ theorem slots_dir : Slots Obj.dir :=
   ⟨fun _ _ _ => rfl, fun _ _ => rfl, fun _ _ _ => rfl, fun _ _ _ _ _ e => by cases e⟩
 theorem slots_file (d : Bytes) : Slots (Obj.file d) :=
   ⟨fun _ _ _ => rfl, fun _ _ => rfl, fun _ _ _ => rfl, fun _ _ _ _ _ e => by cases e⟩
-theorem slots_dev (ma mi : Nat) : Slots (Obj.dev ma mi) :=
+theorem slots_dev (ty ma mi : Nat) : Slots (Obj.dev ty ma mi) :=
   ⟨fun _ _ _ => rfl, fun _ _ => rfl, fun _ _ _ => rfl, fun _ _ _ _ _ e => by cases e⟩
 
 section tail
@@ -601,27 +601,27 @@ theorem createDevice_fresh (o : Opts) (root : List Name) (s : LState) (name : By
     (ma mi : Nat) (h : Good s.fs (dstOf root name)) (hn : s.fs.get (dstOf root name) = none)
     (hnd : (m.xattrs.map Prod.fst).Nodup) (hnu : o.noSameOwner = false → NoUserXattr m.xattrs) :
     ∃ s', createDevice o root s name m ma mi = .ok s' ∧
-      Creates s.fs s'.fs (dstOf root name) (.dev ma mi (attrM o m) (mtimeM m)) ∧
+      Creates s.fs s'.fs (dstOf root name) (.dev (mknodType m) ma mi (attrM o m) (mtimeM m)) ∧
       s'.dirTimes = s.dirTimes := by
   apply Okay.elim (Q := fun s' : LState => Creates s.fs s'.fs (dstOf root name)
-      (.dev ma mi (attrM o m) (mtimeM m)) ∧ s'.dirTimes = s.dirTimes)
+      (.dev (mknodType m) ma mi (attrM o m) (mtimeM m)) ∧ s'.dirTimes = s.dirTimes)
   unfold createDevice
   generalize dstOf root name = dst at *
   simp only []
   rw [unlinkIfThere_fresh h hn]
   refine Tri.bind (Q := fun f => f = s.fs) (Tri.pure rfl) ?_
   rintro _ rfl
-  refine Tri.bind (Q := fun f => Creates s.fs f dst (.dev ma mi {} none))
-    (Okay.sys (mknod_fresh ma mi h hn) (creates_create s.fs h.ne _)) ?_
+  refine Tri.bind (Q := fun f => Creates s.fs f dst (.dev (mknodType m) ma mi {} none))
+    (Okay.sys (mknod_fresh (mknodType m) ma mi h hn) (creates_create s.fs h.ne _)) ?_
   intro f1 hf1
-  refine Tri.bind (perms_tail o m (slots_dev ma mi) h hf1 hnd
+  refine Tri.bind (perms_tail o m (slots_dev (mknodType m) ma mi) h hf1 hnd
     (fun hO kv hkv => by simp [xaOK, hnu hO kv hkv])) ?_
   intro f2 hf2
   split
   · rename_i h0
     exact Tri.pure ⟨by rw [mtimeM_zero h0]; exact hf2, rfl⟩
   · rename_i h0
-    refine Tri.bind (times_tail _ m.mtime.toNat (slots_dev ma mi) h hf2) ?_
+    refine Tri.bind (times_tail _ m.mtime.toNat (slots_dev (mknodType m) ma mi) h hf2) ?_
     intro f3 hf3
     exact Tri.pure ⟨by rw [mtimeM_pos h0]; exact hf3, rfl⟩
 
